@@ -2,6 +2,7 @@
 pub mod cdrv;
 pub mod clock;
 pub mod daemon;
+pub mod fuzzdec;
 pub mod layout;
 pub mod model;
 pub mod props;
